@@ -123,6 +123,15 @@ CLAIMED = {
             "validation raises an internal error, transactions failing each rule, over-limit inventory): no exception escapes the per-connection "
             "handler; chain state object, pool, store buffer/rows and the other peers' connection state are unchanged; nothing is relayed.",
             "Node shell (recording selector, fake sockets, buffer-only store); length prefixes <= 3 octets; bodies longer than 24 bytes outside.", "DESIGN.md 4/C20"),
+    "C10": ("CrossHair symbolic execution of the synchronisation handlers: step lemmas (locator, inventory service, inventory consumption) + one FIFO two-node schedule with symbolic chain shapes",
+            "RESTRICTED CLAIM. Decided: the locator formula for every height < 2^32; the inventory service for every (responder height, requester "
+            "height, fork height, locator of <= 3 entries, requester branch stored or not) within the bound - the reply is a consecutive run of "
+            "active-chain ids whose first item's parent the requester has, non-empty whenever the responder has something the requester lacks, at "
+            "most one batch; inventory consumption requests exactly the unknown ids once and always continues after the last item; on one FIFO "
+            "schedule two real nodes converge to the greater height with a complete chain and no block is sent twice. NOT decided: convergence "
+            "and quiescence under every interleaving and topology on 2-3 nodes (DESIGN.md section 6) - that part of the statement is outside this technique.",
+            "Batch size patched to 2/3 (the code is parametric), heights <= 4/6, node shells; relay-once conditions are decided in C09 (blocks) and C13 (transactions).",
+            "DESIGN.md 4/C10 and 6"),
 }
 
 NOT_YET = "not claimed yet in this revision of /verif: the check is still being built (see DESIGN.md section 4 for the planned decision procedure)"
